@@ -39,7 +39,11 @@ func build(calls int, tasks []genTask, steps [][]string) string {
 	for _, s := range steps {
 		l := sx.L()
 		for _, a := range s {
-			l.Add(sx.A(a))
+			if strings.HasPrefix(a, "(") { // a loss mark: (xfail BASE WHEN UPD) / (afail …)
+				l.Add(sx.MustParse(a))
+			} else {
+				l.Add(sx.A(a))
+			}
 		}
 		n.Add(l)
 	}
@@ -160,6 +164,174 @@ func slowCases(r *rng.R, n int) []fw.Case {
 		cs = append(cs, fw.Case{Input: at(pos, tasks, outs, true), Tags: []string{"slow", pos}})
 	}
 	return cs
+}
+
+// ---- executor / agent loss while a command is outstanding -------------------------------------------------------
+
+func lossMarkStr(agent bool, base, when string, upd bool) string {
+	k := "xfail"
+	if agent {
+		k = "afail"
+	}
+	u := "0"
+	if upd {
+		u = "1"
+	}
+	return fmt.Sprintf("(%s %s %s %s)", k, base, when, u)
+}
+
+var lossPositions = []string{"START_ACTIVITY", "STOP_ACTIVITY", "RESET", "CONFIGURE"}
+
+// lossCase: all-ok path to `pos`, then the request during which the executor / agent of task `vic` is lost, then (if the
+// environment can go on: no critical task is hit and none fails) `tail` further all-ok requests.
+func lossCase(pos string, tasks []genTask, outs []string, vic int, agent bool, when string, upd bool, tail int, extra ...string) fw.Case {
+	var steps [][]string
+	for _, ev := range pathTo[pos] {
+		steps = append(steps, okStep(ev, len(tasks)))
+	}
+	st := append([]string{pos}, outs...)
+	st[1+vic] = lossMarkStr(agent, outs[vic], when, upd)
+	steps = append(steps, st)
+	tags := []string{"loss", "loss:" + pos, "loss:" + when}
+	if agent {
+		tags = append(tags, "loss:agent")
+	} else {
+		tags = append(tags, "loss:executor")
+	}
+	if upd {
+		tags = append(tags, "loss:with-update")
+	} else {
+		tags = append(tags, "loss:no-update")
+	}
+	critHit, collateral, goesOn, silenced := false, false, true, false
+	for i, t := range tasks {
+		hit := t.host == tasks[vic].host
+		if hit && i != vic {
+			collateral = true
+		}
+		eff := outs[i]
+		if hit && (eff == "silent" || (i == vic && when == "before")) {
+			eff = "silent"
+			silenced = true
+		}
+		if hit && t.crit {
+			critHit = true
+		}
+		if t.crit && eff != "ok" {
+			goesOn = false
+		}
+		if !hit && eff == "silent" {
+			silenced = true
+		}
+	}
+	if critHit {
+		tags = append(tags, "loss:critical")
+		goesOn = false
+	} else {
+		tags = append(tags, "loss:noncritical")
+	}
+	if collateral {
+		tags = append(tags, "loss:collateral")
+	}
+	if silenced {
+		tags = append(tags, "slow", "loss:silenced")
+	}
+	tags = append(tags, extra...)
+	if goesOn {
+		state := map[string]string{"CONFIGURE": "CONFIGURED", "START_ACTIVITY": "RUNNING", "STOP_ACTIVITY": "CONFIGURED", "RESET": "DEPLOYED"}[pos]
+		for k := 0; k < tail; k++ {
+			ev := nextEvents[state][0]
+			steps = append(steps, okStep(ev, len(tasks)))
+			state = map[string]string{"CONFIGURE": "CONFIGURED", "START_ACTIVITY": "RUNNING", "STOP_ACTIVITY": "CONFIGURED", "RESET": "DEPLOYED"}[ev]
+		}
+	}
+	return fw.Case{Input: build(0, tasks, steps), Tags: tags}
+}
+
+// lossGrid: two tasks on two hosts (the other one keeps the command outstanding) x every critical mix x the victim's
+// reply in {ok, error staying, error to ERROR} x the four positions; executor / agent and with / without the terminal
+// status update: all four combinations per cell if `full`, otherwise cycling through them.
+func lossGrid(full bool) []fw.Case {
+	var cs []fw.Case
+	k := 0
+	for cm := 0; cm < 4; cm++ {
+		for b, base := range fastOutcomes {
+			for pi, pos := range lossPositions {
+				tasks := []genTask{{cm&1 == 1, modes[(cm+b)%3], "h1", "ok"}, {cm&2 == 2, modes[(cm+pi)%3], "h2", "ok"}}
+				for v := 0; v < 4; v++ {
+					if !full && v != k%4 {
+						continue
+					}
+					cs = append(cs, lossCase(pos, tasks, []string{base, "ok"}, 0, v&1 == 1, "after", v&2 == 2, 2, "loss-grid"))
+				}
+				k++
+			}
+		}
+	}
+	return cs
+}
+
+// lossFixed: shapes the grid does not have. The first `nSlow` slow ones (a victim's reply never leaves, or a victim
+// that never answers keeps the command outstanding all by itself: each waits for the core's 90 s response time-out)
+// are returned separately: they are started first.
+func lossFixed() (slow, fast []fw.Case) {
+	c := func(crit bool, mode, host string) genTask { return genTask{crit, mode, host, "ok"} }
+	slow = []fw.Case{
+		// the critical task's reply never leaves (its executor is gone first): the request fails at the time-out
+		lossCase("START_ACTIVITY", []genTask{c(true, "direct", "h1"), c(false, "basic", "h2")}, []string{"ok", "ok"}, 0, false, "before", false, 0),
+		// the same of a non-critical task: only logged, the environment goes on without it
+		lossCase("STOP_ACTIVITY", []genTask{c(true, "direct", "h1"), c(false, "fairmq", "h2")}, []string{"ok", "ok"}, 1, true, "before", true, 2),
+		// one host, no other target: the critical victim never answers and keeps the command outstanding by itself,
+		// its non-critical neighbour on the same executor answers with an error before both are lost
+		lossCase("START_ACTIVITY", []genTask{c(true, "direct", "h1"), c(false, "direct", "h1")}, []string{"silent", "err"}, 0, false, "after", true, 0),
+	}
+	fast = []fw.Case{
+		// neighbours on the lost executor: the critical one had answered with an error / had acknowledged
+		lossCase("START_ACTIVITY", []genTask{c(false, "direct", "h1"), c(true, "basic", "h1"), c(false, "direct", "h2")}, []string{"ok", "stay", "ok"}, 0, false, "after", false, 0),
+		lossCase("RESET", []genTask{c(false, "direct", "h1"), c(true, "basic", "h1"), c(true, "direct", "h2")}, []string{"err", "ok", "ok"}, 0, true, "after", true, 0),
+		// two non-critical tasks lost together, both having failed: only logged; the later commands go to the rest
+		lossCase("START_ACTIVITY", []genTask{c(false, "fairmq", "h2"), c(true, "direct", "h1"), c(false, "basic", "h2")}, []string{"err", "ok", "stay"}, 2, false, "after", true, 3),
+		lossCase("CONFIGURE", []genTask{c(true, "direct", "h1"), c(false, "basic", "h2"), c(true, "fairmq", "h1")}, []string{"ok", "err", "ok"}, 1, true, "after", false, 3),
+		// the lost task fails, and so does a critical task elsewhere
+		lossCase("STOP_ACTIVITY", []genTask{c(false, "direct", "h1"), c(true, "basic", "h2")}, []string{"stay", "err"}, 0, false, "after", false, 0),
+		// four tasks, two critical ones of which the lost one failed
+		lossCase("START_ACTIVITY", []genTask{c(true, "direct", "h1"), c(true, "fairmq", "h2"), c(false, "basic", "h2"), c(false, "direct", "h1")}, []string{"ok", "err", "ok", "stay"}, 1, true, "after", true, 0),
+	}
+	return
+}
+
+// randomLoss: 2..4 tasks on two hosts, one request with a loss at a random position; at least one target on the other
+// host (it keeps the command outstanding) unless the case is allowed to be slow.
+func randomLoss(r *rng.R, allowSlow bool) fw.Case {
+	for {
+		nt := r.Range(2, 4)
+		tasks := randTasks(r, nt)
+		vic := r.N(nt)
+		other := false
+		for i := range tasks {
+			if tasks[i].host != tasks[vic].host {
+				other = true
+			}
+		}
+		when := "after"
+		outs := make([]string, nt)
+		for i := range outs {
+			outs[i] = "ok"
+			if r.P(2, 5) {
+				outs[i] = rng.Pick(r, fastOutcomes)
+			}
+		}
+		if allowSlow {
+			if r.P(1, 2) {
+				when = "before"
+			} else {
+				outs[vic] = "silent"
+			}
+		} else if !other {
+			continue
+		}
+		return lossCase(rng.Pick(r, lossPositions), tasks, outs, vic, r.Bool(), when, r.Bool(), r.Range(1, 3), "loss-random")
+	}
 }
 
 func randTasks(r *rng.R, n int) []genTask {
@@ -300,21 +472,39 @@ func repairedCases() []fw.Case {
 }
 
 func generate(tier string, r *rng.R) []fw.Case {
-	nSlow, nDeploy, nWalk, maxSteps := 13, 11, 120, 6
+	nSlow, nDeploy, nWalk, maxSteps, nLoss, nLossSlow := 13, 11, 120, 6, 30, 0
 	if tier == "thorough" {
-		nSlow, nDeploy, nWalk, maxSteps = 70, 40, 1500, 9
+		nSlow, nDeploy, nWalk, maxSteps, nLoss, nLossSlow = 70, 40, 1500, 9, 300, 20
 	}
 	var cs []fw.Case
-	// slow ones first: they mostly sleep, the workers overlap them with everything else
+	// slow ones first: they mostly sleep, the workers overlap them with everything else. EVERY case that runs into one
+	// of the core's response time-outs (90 s, CONFIGURE 120 s) must be in this first block: one of them started late
+	// is what the wall time of the whole run becomes.
 	cs = append(cs, slowCases(r.Fork(), nSlow)...)
+	lossSlow, lossFast := lossFixed()
+	cs = append(cs, lossSlow...)
+	rl := r.Fork()
+	for i := 0; i < nLossSlow; i++ {
+		cs = append(cs, randomLoss(rl.Fork(), true))
+	}
 	cs = append(cs, deployCases(r.Fork(), nDeploy)...)
 	cs = append(cs, repairedCases()...)
+	cs = append(cs, lossFast...)
+	cs = append(cs, lossGrid(tier == "thorough")...)
+	for i := 0; i < nLoss; i++ {
+		cs = append(cs, randomLoss(rl.Fork(), false))
+	}
 	cs = append(cs, exhaustiveFast()...)
 	for i := 0; i < nWalk; i++ {
 		cs = append(cs, randomWalk(r.Fork(), maxSteps))
 	}
 	return cs
 }
+
+// Generate and Workers are exported for the probe program (`c02probe -sched`: what a run's wall time is made of).
+func Generate(tier string, r *rng.R) []fw.Case { return generate(tier, r) }
+
+const Workers = 40
 
 // nontrivial: at least one task, and either two requests were answered or some scripted outcome is not `ok`.
 func nontrivial(in, obs string) bool {
@@ -398,10 +588,12 @@ func init() {
 			"(b) random legal walks of up to 6 (thorough: 9) requests over 1..4 tasks on 1..2 hosts, modes direct/basic/fairmq, with idle deaths of non-critical tasks; " +
 			"(c) DEPLOY cases (task dies at launch / stays staging / has no host, empty workflow, call roles only); " +
 			"(d) a handful of cases with a silent / dying / unreachable task (each waits for the core's 90 s or 120 s response timeout); " +
-			"(e) 8 fixed cases in the four repaired corners (commands with no target incl. CONFIGURE and a call-roles-only workflow, a lone non-critical task failing at every position, failed requests). " +
+			"(e) 8 fixed cases in the four repaired corners (commands with no target incl. CONFIGURE and a call-roles-only workflow, a lone non-critical task failing at every position, failed requests); " +
+			"(f) executor / agent loss while a command is outstanding (Mesos FAILURE event injected after the victim's reply has left / before it leaves, with / without the terminal status updates, the other targets answering only after the core has handled the loss): " +
+			"a grid of 2 tasks on 2 hosts x every critical mix x the victim's reply in {ok, error staying, error to ERROR} x START/STOP/RESET/CONFIGURE (48 cells; thorough: x executor/agent x with/without update = 192), 9 fixed shapes (neighbours on the lost executor, several tasks lost, a reply that never leaves, a silent victim that keeps the command outstanding by itself), 30 (thorough: 320) random ones over 2..4 tasks. " +
 			"non-trivial = at least one task and (two answered requests or a scripted failure); distinct by input text",
 		Shrink:  shrink,
-		Workers: 40,
+		Workers: Workers,
 		TrustedBase: []string{
 			"harness/sim: simulated Mesos master, agents, executors and tasks (scripted per command), Consul KV, git workflow repository; the core itself is the real one (core.RunForVerif in a child process, real gRPC API)",
 			"harness/props/c02/run.go: request driver and observation (gRPC status, reply state, GetEnvironments afterwards, MESSAGE calls seen by the master)",
@@ -412,6 +604,7 @@ func init() {
 			"simulated executors stand in for o2-aliecs-executor (+ OCC/FairMQ tasks): they answer with the repository's own response types; fairmq-mode tasks are treated like direct ones",
 			"after a failed MESSAGE call (undeliverable) replies of the other targets may or may not arrive (the scheduler client drops its subscription): the driver accepts either, each being an instance of the model with those targets silent",
 			"who gets the transition mutex first after a failed slow transition (the environment's watcher or the RPC handler) decides the gRPC status: the driver accepts either where the model allows both",
+			"executor / agent loss: the simulated master emits the FAILURE event (optionally preceded by the terminal status updates of the tasks hit) once the replies of the tasks hit have left it; the reactions of the other targets are held until the core reports every task hit as unlocked and not ACTIVE, and the case is inconclusive unless the request is still unanswered then; the core runs one executor per agent, so a loss hits every live task on the host (checked against the master's task table in every such case, and the set of tasks hit is part of the compared observation); when a critical task that had acknowledged is lost, the state in the reply of the (successful) request is the destination or already ERROR depending on whether the environment's watcher got the transition mutex before the handler read the state: the driver accepts either, and the harness waits for the environment to show ERROR before it reads the state afterwards",
 		},
 	})
 }
